@@ -7,6 +7,12 @@ pub fn verif_dir() -> PathBuf {
     std::env::var("VERIF_DIR").map(PathBuf::from).unwrap_or_else(|_| PathBuf::from("/verif"))
 }
 
+/// where evidence and replays are written (VERIF_OUT_DIR overrides, used when a check is run
+/// against a deliberately broken tree so that the committed evidence is not overwritten)
+pub fn out_dir() -> PathBuf {
+    std::env::var("VERIF_OUT_DIR").map(PathBuf::from).unwrap_or_else(|_| verif_dir())
+}
+
 pub struct Evidence {
     pub property_id: String,
     pub tier: String,
@@ -32,7 +38,7 @@ impl Evidence {
         for (k, v) in &self.extra {
             j.set(k, v.clone());
         }
-        let dir = verif_dir().join("evidence");
+        let dir = out_dir().join("evidence");
         std::fs::create_dir_all(&dir)?;
         let path = dir.join(format!("{}.json", self.property_id));
         let tmp = dir.join(format!(".{}.json.tmp", self.property_id));
@@ -54,7 +60,7 @@ fn fnv(s: &str) -> u64 {
 /// Write one violation as a replayable artefact; returns its path.
 pub fn write_replay(property: &str, case: &J) -> PathBuf {
     let body = case.to_string_pretty();
-    let dir = verif_dir().join("replays").join(property);
+    let dir = out_dir().join("replays").join(property);
     let _ = std::fs::create_dir_all(&dir);
     let path = dir.join(format!("{:016x}.json", fnv(&body)));
     let _ = std::fs::write(&path, body);
